@@ -310,6 +310,52 @@ def r6(p, rep):
     rep.add("C11.R6", f"{f.qualname}:record-and-consume", f.loc, bool(adds) and bool(dels), "each new module is recorded as seen and its pending factories are consumed")
 
 
+def r7(p, rep):
+    rep.rule("C11.R7", "the by-name lookup returns a backend only after the name is known to be registered (else ValueError)", "T-MPT over enumerated paths (last membership fact before each return)", floor=1)
+    from sa.cfg import decompose
+
+    f = p.func("BackendRegistryState._get_by_name", "frontend.backend")
+    cfg = CFG(f.node)
+    byid = {n.id: n for n in cfg.nodes}
+    name = f.params[1] if len(f.params) > 1 else None
+    if name is None:
+        raise AnalysisError("unrecognised idiom: _get_by_name has no name parameter")
+
+    def membership(t, pol):
+        if isinstance(t, ast.Compare) and len(t.ops) == 1 and isinstance(t.ops[0], (ast.In, ast.NotIn)) and isinstance(t.left, ast.Name) and t.left.id == name and "name_to_backend" in norm(t.comparators[0]):
+            return pol if isinstance(t.ops[0], ast.In) else not pol
+        return None
+
+    rets = [r for r in walk_no_nested(f.node) if isinstance(r, ast.Return) and r.value is not None]
+    if not rets:
+        raise AnalysisError("unrecognised idiom: _get_by_name returns nothing")
+    for r in rets:
+        rn = cfg.node_for(r)
+        bad = None
+        n_paths = 0
+        for path in cfg.paths(cfg.entry, {rn.id}, limit=5000):
+            n_paths += 1
+            known = None
+            for nid in path:
+                nd = byid[nid]
+                if nd.kind in ("stmt", "test") and nd.ast is not None and nd is not rn:
+                    e = nd.test if nd.kind == "test" and nd.test is not None else nd.ast
+                    if not isinstance(e, (ast.If, ast.While, ast.For, ast.Try, ast.With)):
+                        for c in ast.walk(e):
+                            if isinstance(c, ast.Call) and isinstance(c.func, ast.Attribute) and isinstance(c.func.value, ast.Name) and c.func.value.id == f.params[0] and c.func.attr not in ("_invalid_backend_reasons",):
+                                known = None  # a method of the state object may register backends: earlier facts are stale
+                if nd.kind == "edge" and nd.test is not None and nd.polarity is not None:
+                    for t, pol in decompose(nd.test, nd.polarity):
+                        m = membership(t, pol)
+                        if m is not None:
+                            known = m
+            if known is not True:
+                bad = path
+                break
+        site = f"{f.module.rel}:{r.lineno}"
+        rep.add("C11.R7", f"{f.qualname}:return:{norm(r.value)[:40]}", site, bad is None, f"on all {n_paths} paths the last fact before the return is `{name} in name_to_backend`" if bad is None else f"a path reaches `return {norm(r.value)[:40]}` without having established that `{name}` is registered (after the import scan the name is not looked up again): the lookup returns None / raises KeyError instead of the documented ValueError, depending on what was imported before")
+
+
 def run(p, rep, tier):
     r1(p, rep)
     r2(p, rep)
@@ -317,6 +363,7 @@ def run(p, rep, tier):
     r4(p, rep)
     r5(p, rep)
     r6(p, rep)
+    r7(p, rep)
     from . import c06, c10
 
     rep.rule("C06.R5", "no hidden state survives a lookup: no mutable default arguments", "inventory", floor=50)
